@@ -278,7 +278,9 @@ class CaseRunner:
             fails.append(Violation(rule, site, case, "no feasible path", f"{len(outs)} paths"))
         for o in outs:
             r = None
-            if flag_kinds:
+            # programming errors no contract ever licenses are reported whatever flags a case asks for
+            r = flags_sig(o, tuple(flag_kinds or ()) + ("unbound-name", "bad-isinstance", "bad-hash"))
+            if False:
                 r = flags_sig(o, flag_kinds)
             if r is None:
                 try:
